@@ -128,11 +128,11 @@ def run(tier, seed, only=None):
     logger.disable("sleap_nn")
     res = Result("C12")
     for k in (0, 2):
-        r = check_model("InferBatch", IB % (k, "intended"), timeout=300, workers=4, require_actions=("RunBatch",))
+        r = check_model("InferBatch", IB % (k, "intended"), timeout=900, workers=4, require_actions=("RunBatch",))
         res.add_mc("InferBatch intended, K=%d" % k, r)
         if r.violation:
             raise TLCError("InferBatch violated: %s" % (r.violation,))
-    rc = check_model("InferBatch", IB % (2, "misaligned"), timeout=300, workers=4, expect_violation=("invariant", "Independent"))
+    rc = check_model("InferBatch", IB % (2, "misaligned"), timeout=900, workers=4, expect_violation=("invariant", "Independent"))
     res.add_mc("InferBatch counter-model (zip by position after skipping empty results)", rc, "must violate")
     batches = [list(b) for n in (1, 2, 3) for b in itertools.permutations(range(4), n)]
     combos = [("single", 0, None), ("single", 0, "integral"), ("topdown", 0, None), ("topdown", 1, None), ("topdown", 2, "integral"),
